@@ -481,7 +481,10 @@ class Interp:
                 return self.expr(e.body, env)
             if t is False:
                 return self.expr(e.orelse, env)
-            return d.join(self.expr(e.body, env), self.expr(e.orelse, env), e)
+            vb, vo = self.expr(e.body, env), self.expr(e.orelse, env)
+            if isinstance(vb, (FuncRef, FuncChoice)) and isinstance(vo, (FuncRef, FuncChoice)):
+                return FuncChoice((vb.options if isinstance(vb, FuncChoice) else [vb]) + (vo.options if isinstance(vo, FuncChoice) else [vo]))
+            return d.join(vb, vo, e)
         if isinstance(e, ast.Attribute):
             recv = self.expr(e.value, env)
             return d.attr(recv, e.attr, e)
@@ -604,7 +607,25 @@ class Interp:
             return self.call_func(f, args, kwargs, e)
         if isinstance(f, ExtName):
             return d.call_external(f.q, args, kwargs, e)
+        if isinstance(f, FuncChoice):
+            # `(f if c else g)(x)`: either callee may run; both are interpreted and the results joined
+            outs = []
+            for fr in f.options:
+                summ = getattr(d, "repo_summaries", {}).get(fr.name)
+                outs.append(summ(d, args, kwargs, e) if summ is not None else self.call_func(fr, args, kwargs, e))
+            out = outs[0]
+            for o in outs[1:]:
+                out = d.join(out, o, e)
+            return out
         raise Unsupported(e, f"call of {f!r}")
+
+
+class FuncChoice(V):
+    """one of several repo functions (a conditional expression over function names)"""
+    def __init__(self, options):
+        self.options = list(options)
+    def __repr__(self):
+        return "FuncChoice(" + ", ".join(o.name or "?" for o in self.options) + ")"
 
 
 class Unknown(V):
